@@ -211,7 +211,8 @@ def _judge_export(cls, kind, sym, fields, rv, sym_of):
                 if not (_rec_of(a[0], fields[0]) and _rec_of(a[2], fields[1])):
                     return False, "operands are not (left, right) in field order"
                 return True, f"ast.{opn}"
-            return False, f"unexpected export {str(rv)[:80]}"
+            raise AnalysisError(f"exporter: export value {str(rv)[:80]} is of a "
+                                "form the checker cannot read")
         kids, opv = rv[2]
         opn = _ast_ctor(opv)
         if sym_of.get(opn) != sym:
